@@ -48,8 +48,10 @@ def gen_body(rng, kind, fw_acts=False, poke=False):
                 extra.append(("expect",))
             elif r < 0.82:
                 extra.append(("call",))
-            elif r < 0.9:
+            elif r < 0.87:
                 extra.append(("setparam",))
+            elif r < 0.93:
+                extra.append(("badparam",))
             elif poke:
                 extra.append(rng.choice([("poke", rng.choice([1, 2, 7])), ("peek", rng.choice([0, 0, 1, 7]))]))
         for a in extra:
@@ -130,8 +132,10 @@ def plant_one_bad(rng, root):
         return None
     s, t = ts[-1] if rng.random() < 0.5 else rng.choice(ts)
     t.skip = False
-    kind = rng.choice(["fail", "signal", "exit3", "skipfail", "skipexpect"])
-    if kind == "fail":
+    kind = rng.choice(["fail", "signal", "exit3", "skipfail", "skipexpect", "badparam"])
+    if kind == "badparam":         # a mocked call violating its when() clause: one failing check
+        t.body = [("c", 1), ("badparam",)]
+    elif kind == "fail":
         t.body = [("c", 1), ("c", 0)]
     elif kind == "skipfail":       # skip_test() does not leave the test: a later check still counts
         t.body = [("c", 1), ("skip",), ("c", 0)]
